@@ -23,6 +23,12 @@ def run(chk, program, tier):
     chk.rule('ENC-NAME', 'one encoder per definition under the name the encoder lookup forms')
     chk.rule('GEN-DEC', 'leaf decoder reports the PGN/id of its definition')
     nd, na, nc = R.disp(chk, program)
+    # which definition decodes a payload does not depend on the payloads decoded before it (C16 STATE-DEPS / FRESH-MSG)
+    chk.rule('STATE-DEPS', 'the decode path depends only on configuration, source map and reassembly buffers (C16)'); chk.rule('FRESH-MSG', 'no memoised message objects (C16)')
+    from .. import rules_iso
+    from .c16 import _Sub
+    rules_iso.state_deps(_Sub(chk, {'STATE-DEPS'}), program)
+    rules_iso.no_decorators(_Sub(chk, {'FRESH-MSG'}), program)
     R.disp_reach(chk, program)
     E.enc_name(chk, program)
     E.enc_state(chk, program)
